@@ -726,8 +726,12 @@ func writeIfChanged(path, content string) {
 
 func main() {
 	repo := flag.String("repo", "/repo", "repository root")
-	out := flag.String("out", "/verif/lean/SlugModel/Generated", "output directory")
+	out := flag.String("out", "", "output directory (required)")
 	flag.Parse()
+	if *out == "" {
+		fmt.Fprintln(os.Stderr, "extract: -out is required")
+		os.Exit(2)
+	}
 	os.MkdirAll(*out, 0755)
 
 	extractRemote(*repo, *out)
